@@ -539,7 +539,7 @@ def make_cases(ctx, rnd):
     cases.append(Case(tabs, cor[5], share=True, origin="corpus"))
     cases.append(Case(tabs, cor[4], share=True, origin="corpus"))
     # bounded-exhaustive: every method x ordered pairs of operand tables (same table twice = common ancestor)
-    pool = ab[:4] + [4] if quick else ab[:4] + [4, 5] + ab[4:]
+    pool = ab[:3] + [4] if quick else ab[:4] + [4, 5] + ab[4:]
     for call in CALLS:
         for i in pool:
             for j in pool:
@@ -576,12 +576,16 @@ def make_cases(ctx, rnd):
                 if valid(t, tabs):
                     cases.append(Case(tabs, t, post="groupcount", origin="pairs"))
     # every ordered pair of methods nested left / right (depth 2) on fixed operands
+    k_nest = 0
     for c1 in POSITIONAL:
         for c2 in POSITIONAL:
-            cases.append(Case(tabs, ("set", c2, ("set", c1, ("in", 1), ("in", 2)), ("in", 3)), origin="nest2"))
-            cases.append(Case(tabs, ("set", c2, ("in", 3), ("set", c1, ("in", 2), ("in", 1))), origin="nest2"))
+            k_nest += 1
+            if not quick or k_nest % 2:
+                cases.append(Case(tabs, ("set", c2, ("set", c1, ("in", 1), ("in", 2)), ("in", 3)), origin="nest2"))
+            if not quick or not k_nest % 2:
+                cases.append(Case(tabs, ("set", c2, ("in", 3), ("set", c1, ("in", 2), ("in", 1))), origin="nest2"))
     # random trees, depth <= 3, independent and common-ancestor operands, steps in between
-    n_rand = 130 if quick else 2500
+    n_rand = 110 if quick else 2000
     tries = 0
     while n_rand > 0 and tries < 50000:
         tries += 1
